@@ -817,11 +817,13 @@ impl SrtlaConnection {
             {
                 return false;
             }
-            // After grace period, or for connections that were previously established,
-            // if we've never received anything or haven't received in a while, consider it timed out
-            return self
-                .last_received
-                .is_none_or(|lr| now.saturating_sub(lr) >= self.conn_timeout_ms);
+            // After the grace period, or for connections that were previously
+            // established, a link that is not registered is due for (re-)registration
+            // regardless of what it has heard: a straggler datagram arriving after a
+            // teardown refreshes `last_received`, and must not postpone the next
+            // attempt by a whole `conn_timeout_ms` (up to 60 s). Retry pacing is
+            // `should_attempt_reconnect`'s job.
+            return true;
         }
 
         // For established connections, check normal timeout
